@@ -241,7 +241,8 @@ class Topology(ABC):
                 if peers:
                     if len(peers) == 1:
                         # disconnect from its parent service
-                        self.get_parent_element(peers[0]).disconnect_interface(ii)
+                        # (own service ports of the removed element are disconnected from their peering too)
+                        self.get_parent_element(peers[0]).disconnect_interface(ii, _internal=True)
                     else:
                         raise TopologyException(f'Interface {ii.name} has more than one peer, '
                                                 f'this is a model error.')
